@@ -15,6 +15,7 @@ import Kust.Image
 import Kust.OpenApi
 import Kust.FieldSpec
 import Kust.Path
+import Kust.Kio
 import Kust.Gen.FieldSpecs
 import Kust.Gen.Lists
 open Lean Kust
@@ -286,6 +287,29 @@ def runPath (op : String) (a : Json) : Except String Json := do
     return Json.mkObj [("ok", Json.arr (go [[]] ops).toArray)]
   | _ => throw s!"unknown path op {op}"
 
+def runKio (op : String) (a : Json) : Except String Json := do
+  let g (k : String) : String := (a.getObjValD k).getStr?.toOption.getD ""
+  match op with
+  | "split" =>
+    -- the reader normalises CRLF first; a document is kept iff some line of it is a key line `k<i>: …`
+    let s := (g "stream").replace "\r\n" "\n"
+    match Kio.splitDocs s with
+    | .ok docs =>
+      let keys := docs.filterMap fun d =>
+        ((d.splitOn "\n").find? (fun l => l.startsWith "k" && (l.splitOn ":").length > 1)).map fun l => ((l.splitOn ":").headD "")
+      return Json.mkObj [("ok", strsJ keys)]
+    | .err c => return Json.mkObj [("err", Json.str c)]
+    | .panic c => return Json.mkObj [("panic", Json.str c)]
+  | "pkgpath" =>
+    let pkg := Path.compsOf (g "pkg")
+    let path := g "path"
+    if Kio.pkgPathOk path then
+      -- the writer refuses to overwrite an existing directory (here: the package directory itself)
+      if Kio.pkgTarget pkg path = pkg then return Json.mkObj [("err", Json.str "dir")]
+      return Json.mkObj [("ok", Json.str ("/" ++ "/".intercalate (Kio.pkgTarget pkg path)))]
+    else return Json.mkObj [("err", Json.str "path")]
+  | _ => throw s!"unknown kio op {op}"
+
 def dispatch (comp : String) (args : Json) : Except String Json :=
   match comp.splitOn "." with
   | ["fns", op] => runFns op args
@@ -298,6 +322,7 @@ def dispatch (comp : String) (args : Json) : Except String Json :=
   | ["openapi", op] => runOpenApi op args
   | ["fieldspec", op] => runFieldSpec op args
   | ["path", op] => runPath op args
+  | ["kio", op] => runKio op args
   | _ => throw s!"unknown component {comp}"
 
 partial def loop (hin hout : IO.FS.Stream) : IO Unit := do
